@@ -237,6 +237,12 @@ class BuiltinMixin(object):
         for st1, seq in self.as_sequence(st, v):
             if isinstance(seq, list):
                 seq = self.list_seq(PyList(items=seq)) if seq else SeqV(z3.IntVal(0), lambda k: None)
+            try:
+                self.seq_key(seq)
+            except Unsupported:
+                # a set of non-numeric values: content untracked
+                yield st1, st1.alloc(Bag("set"))
+                continue
             # len(set(xs)) == len(xs) iff the elements are pairwise distinct: DISTINCT(xs)
             dl = smt.fresh("setlen", z3.IntSort())
             dist = self.distinct_pred(seq)
@@ -456,6 +462,9 @@ class BuiltinMixin(object):
         if not isinstance(cls, ClassV):
             raise Unsupported("isinstance with %r" % (cls,))
         n = cls.name
+        if isinstance(v, ExcSym):
+            m = self.exc_matches(st, v, cls)
+            return m if isinstance(m, bool) else Sym("bool", m)
         if isinstance(v, Sym) and v.kind == "dyn":
             return Sym("bool", self.dyn_isinstance(st, v.t, cls))
         if isinstance(v, bool):
